@@ -115,12 +115,28 @@ def main(argv=None):
             runner_ok = (core.BUILD / ("model_run" + tag)).exists()
 
     ctx = Ctx(args.tier, seed, core.Model(tag) if runner_ok else None)
+    # Soft pins: the hand model of the core machine was written against particular versions of 62 functions of
+    # /repo (AST fingerprints, docstrings and logging stripped).  A changed function is not a broken obligation -
+    # the tie of a hand-written model is the correspondence run - but it enlarges the budget of that run (x4) and
+    # is named in the evidence.
+    if getattr(prop, "SOFT_PINS", None):
+        try:
+            from harness.translate import fingerprints
+            pinned = json.loads((core.VERIF / "harness" / "pins" / (prop.SOFT_PINS + "_fingerprints.json")).read_text())
+            now = dict(fingerprints.table())
+            changed = sorted(k for k in set(pinned) | set(now) if pinned.get(k) != now.get(k))
+        except Exception as exc:      # e.g. a modelled function was removed or renamed
+            changed = [f"fingerprints unavailable: {type(exc).__name__}: {exc}"]
+        res.extra["hand_modelled_functions_changed_since_the_model_was_written"] = changed
+        if changed:
+            log(f"[{pid}] hand-modelled functions changed: {changed[:6]} -> correspondence budget x4")
+            ctx.scale = 4
     try:
         prop.run(ctx, res)
         known_keys = {f["key"] for f in core.load_findings() if f["property"] == pid and f["status"] == "known"}
         if broken and not any(v.found_input and v.key not in known_keys for v in res.violations):
             log(f"[{pid}] proof/tie broken -> search with enlarged budget")
-            ctx.scale = 4 if args.tier == "quick" else 16
+            ctx.scale = max(ctx.scale, 4 if args.tier == "quick" else 16) * (2 if ctx.scale > 1 else 1)
             ctx.searching = True
             prop.run(ctx, res)
     except Exception:
